@@ -619,3 +619,16 @@ PROPS["C03"]._k = PROPS["C03"]._k + [u for u in props_lexer.C18_UNITS if u not i
 
 # C18: positions attached by the evaluator - operator errors at the operator, undefined names at the name, call errors at the call expression
 PROPS["C18"]._v = PROPS["C18"]._v + [u for u in ALL_V if u.name in ("binop", "expr", "call")]
+
+
+# round-3 seeds: clauses that also speak for other properties
+def _add_v(pid, *names):
+    have = {u.name for u in PROPS[pid]._v}
+    PROPS[pid]._v = PROPS[pid]._v + [u for u in ALL_V if u.name in names and u.name not in have]
+_add_v("C06", "eq")            # op_symbol: a diagnostic names the operation
+_add_v("C11", "typefns")       # ->len() is the number of indexable positions
+_add_v("C15", "pairs")         # `for` over a string walks bytes
+_add_v("C12", "coerce")        # computed property names
+_add_v("C20", "call")          # the body runs on the closure's chain, not the caller's (lexical, not dynamic, lookup)
+_add_v("C17", "call")          # evaluation order decides which prints precede a failure
+_add_v("C03", "lex_skip")      # skipping blanks and comments terminates (never hangs), also at the end of the input
